@@ -45,6 +45,47 @@ MANIFEST = {
 }
 
 
+def reflected_eq(ctx):
+    """T4.reflect: inside C.__eq__(self, other) the expression `other == self` does not hand the comparison to the other operand
+    when `other` is an instance of a base class of C that C overrides __eq__ of: Python gives the subclass's reflected method
+    priority, so the call comes straight back to C.__eq__ with the same operands -- unbounded recursion for `cache == {..}` of
+    equal length.  On every path, `other == self` (and `self == other`, which re-enters at once) is reached only after the path
+    established that `other` is not a dict."""
+    import ast
+    from sa.index import FuncInfo
+    from rules.common import paths_of, txt, tests_on, loc
+    prog = ctx.program
+    n = 0
+    for cls in ('cacheutils.LRI', 'cacheutils.LRU'):
+        ci = prog.cls(cls)
+        eq = prog.resolve(ci, '__eq__')
+        if not isinstance(eq, FuncInfo) or len(eq.params) < 2:
+            continue
+        other = eq.params[1]
+        w, paths = paths_of(prog, eq, recv=ci)
+        bad = None
+        for p in paths:
+            ts = tests_on(w, p)
+            for o in p.ops:
+                if o.kind != 'compare' or not isinstance(o.val, ast.Compare) or len(o.val.ops) != 1 or \
+                        not isinstance(o.val.ops[0], (ast.Eq, ast.NotEq)):
+                    continue
+                l, r = txt(w.expand(o.val.left)), txt(w.expand(o.val.comparators[0]))
+                if {l, r} != {'self', other}:
+                    continue
+                n += 1
+                not_dict = any(t.replace(' ', '').startswith('isinstance(%s,' % other) and 'dict' in t and not truth and x.seq < o.seq
+                               for t, truth, x in ts)
+                if (l == 'self' or not not_dict) and bad is None:
+                    bad = (p, o, l)
+        if bad:
+            ctx.ob('T4.reflect', eq.fq, '`%s == self` inside __eq__ is reached only for operands that are not dicts (for a dict the '
+                   'interpreter calls this very method again: unbounded recursion)' % other, False, loc=loc(eq, bad[1].node),
+                   detail='`%s` compared first' % bad[2], path=bad[0].describe())
+        else:
+            ctx.ob('T4.reflect', eq.fq, '__eq__ never re-dispatches the comparison of the same two operands to itself', True, loc=eq.loc)
+
+
 def move_to_front(ctx):
     """T9.front: the private operation that hands out the link of an existing key as the newest one (used by every hit and
     by re-assignment) leaves that link immediately before the anchor on every normal path: the path stores it into
@@ -99,6 +140,7 @@ def run(ctx):
     for m in subjects:
         n_sp += onepass.splice_shape(ctx, m)
     move_to_front(ctx)
+    reflected_eq(ctx)
     upd = ctx.program.func('cacheutils.LRI.update')
     onepass.sources_consumed(ctx, upd, [p_ for p_ in (upd.params[1:] + ([upd.node.args.kwarg.arg] if upd.node.args.kwarg else []))])
     if n_sp == 0:
